@@ -17,6 +17,8 @@ import (
 	"strings"
 
 	"github.com/nspcc-dev/neo-go/pkg/core/transaction"
+	"github.com/nspcc-dev/neo-go/pkg/neotest"
+	"github.com/nspcc-dev/neo-go/pkg/util"
 	"github.com/nspcc-dev/neo-go/pkg/io"
 	"github.com/nspcc-dev/neo-go/pkg/smartcontract/callflag"
 	"github.com/nspcc-dev/neo-go/pkg/vm/emit"
@@ -32,35 +34,6 @@ const (
 )
 
 // ---------- store <-> observation ----------
-
-type triple struct{ o, k, v int }
-
-func (v *env) triples(s *snapshot) []triple {
-	var res []triple
-	for _, e := range s.store {
-		res = append(res, triple{e.c, e.k, e.v})
-	}
-	for _, a := range []int{0, 1, 2, 3, 6, 7, 8, senderAcc} {
-		if g := s.gas[a]; g != nil && g.Sign() != 0 {
-			res = append(res, triple{gasTab, a, int(g.Int64())})
-		}
-		if n := s.neo[a]; n != nil && n.Sign() != 0 {
-			res = append(res, triple{gasTab + 1, a, int(n.Int64())})
-		}
-	}
-	res = append(res, triple{policyTab, 0, int(s.feePB)})
-	for d, id := range s.aux {
-		res = append(res, triple{mgmtTab, d, id})
-	}
-	res = append(res, triple{mgmtTab, 99, s.nextID})
-	for a, b := range s.blocked {
-		if b {
-			res = append(res, triple{blockTab, a, 1})
-		}
-	}
-	sortTriples(res)
-	return res
-}
 
 func sortTriples(t []triple) {
 	sort.Slice(t, func(a, b int) bool {
@@ -93,7 +66,7 @@ func triplesOf(l *wnode) []triple {
 	var res []triple
 	for k := range l.keys() {
 		if v, ok := l.get(k); ok {
-			if (k.o == gasTab || k.o == gasTab+1) && v == 0 {
+			if (k.o == gasTab || k.o == neoTab || k.o == candTab || k.o == votersTab) && v == 0 {
 				continue
 			}
 			res = append(res, triple{k.o, k.k, v})
@@ -130,6 +103,7 @@ type txPlan struct {
 	tree      []*Node
 	committee bool // a Policy setter occurs: the committee signs too
 	deploys   bool
+	oog       bool // the system fee is cut below what the script needs: the tx runs out of gas
 }
 
 func (p txPlan) fee() int64 {
@@ -145,8 +119,32 @@ func simpleTx(r *prng.R) txPlan {
 
 func planText(p txPlan) string { return treeText(p.tree) }
 
-// setup gives the contracts random initial storage and GAS (one block).
+// setup: a registered candidate, then random initial storage, GAS and NEO for the contracts,
+// sometimes votes, blocked accounts, whitelisted fees and a deployed auxiliary contract.
 func (v *env) setup(r *prng.R) {
+	halt := func(txs ...*transaction.Transaction) {
+		if len(txs) == 0 {
+			return
+		}
+		v.e.AddNewBlock(v.tb, txs...)
+		for _, tx := range txs {
+			if aer := v.e.GetTxExecResult(v.tb, tx.Hash()); aer.VMState != vmstate.Halt {
+				panic("setup transaction failed: " + aer.FaultException)
+			}
+		}
+	}
+	natTx := func(h util.Uint160, method string, fee int64, signers []neotest.Signer, args ...any) *transaction.Transaction {
+		w := io.NewBufBinWriter()
+		emit.AppCall(w.BinWriter, h, method, callflag.All, args...)
+		tx := transaction.New(w.Bytes(), 0)
+		tx.Nonce = v.nextNonce()
+		tx.ValidUntilBlock = v.bc.BlockHeight() + 1
+		return v.e.SignTx(v.tb, tx, fee, signers...)
+	}
+	comm := []neotest.Signer{v.comm}
+	// the committee member registers itself as a candidate (1000 GAS)
+	halt(natTx(v.w.neo, "registerCandidate", 1010_0000_0000, []neotest.Signer{v.sender, v.single}, v.w.candKey))
+
 	var txs []*transaction.Transaction
 	for i := 0; i < numContracts; i++ {
 		var prog []*Node
@@ -155,24 +153,45 @@ func (v *env) setup(r *prng.R) {
 				prog = append(prog, &Node{Op: nPut, K: k, V: r.Range(1, 9)})
 			}
 		}
-		if len(prog) > 0 {
-			script := v.w.compileEntry([]*Node{{Op: nCall, C: i, Fl: 15, Body: prog}})
-			txs = append(txs, v.newTx(script, sysFee, false))
+		if i < 3 && r.Chance(1, 4) { // becomes meaningful once the contract holds NEO (next block)
+			prog = append(prog, &Node{Op: nNotify, K: 1})
 		}
-		if amt := r.Intn(21); amt > 0 && r.Chance(3, 4) {
-			w := io.NewBufBinWriter()
-			emit.AppCall(w.BinWriter, v.w.gas, "transfer", callflag.All, v.comm.ScriptHash(), v.w.hashes[i], int64(amt), nil)
-			tx := transaction.New(w.Bytes(), 0)
-			tx.Nonce = v.nextNonce()
-			tx.ValidUntilBlock = v.bc.BlockHeight() + 1
-			txs = append(txs, v.e.SignTx(v.tb, tx, sysFee, v.comm))
+		if len(prog) > 0 {
+			txs = append(txs, v.newTx(v.w.compileEntry([]*Node{{Op: nCall, C: i, Fl: 15, Body: prog}}), sysFee, false))
+		}
+		if r.Chance(4, 5) {
+			amt := int64(r.Intn(21))
+			if r.Chance(2, 3) {
+				amt += 1_0000_0000 // enough for Notary deposits
+			}
+			if amt > 0 {
+				txs = append(txs, natTx(v.w.gas, "transfer", sysFee, comm, v.comm.ScriptHash(), v.w.hashes[i], amt, nil))
+			}
+		}
+		if i < 3 && r.Chance(1, 2) {
+			txs = append(txs, natTx(v.w.neo, "transfer", sysFee, comm, v.comm.ScriptHash(), v.w.hashes[i], int64(r.Range(1, 40)), nil))
 		}
 	}
-	// sometimes the chain starts with blocked accounts and a deployed auxiliary contract
+	if r.Chance(1, 3) {
+		txs = append(txs, natTx(v.w.neo, "transfer", sysFee, comm, v.comm.ScriptHash(), v.w.plain[6], int64(r.Range(1, 9)), nil))
+	}
+	halt(txs...)
+	// sometimes the chain starts with votes, blocked accounts, whitelisted fees, a deployed auxiliary contract
+	txs = nil
+	for i := 0; i < 3; i++ {
+		if r.Chance(1, 3) {
+			txs = append(txs, v.newTx(v.w.compileEntry([]*Node{call(i, 15, &Node{Op: nNative, Fl: 15, Nat: &NatOp{Kind: natVote, Val: 1}})}), sysFee, false))
+		}
+	}
 	var pre []*Node
 	for _, a := range plainAccounts {
 		if r.Chance(1, 3) {
 			pre = append(pre, blockAcc(a, 15))
+		}
+	}
+	for i := 0; i < numContracts; i++ {
+		if r.Chance(1, 4) {
+			pre = append(pre, &Node{Op: nNative, Fl: 15, Nat: &NatOp{Kind: natSetWl, To: i, Val: r.Range(0, 900)}})
 		}
 	}
 	if r.Chance(1, 5) {
@@ -182,15 +201,7 @@ func (v *env) setup(r *prng.R) {
 		p := planOf([]*Node{call(0, 15, pre...)})
 		txs = append(txs, v.newTx(v.w.compileEntry(p.tree), p.fee(), p.committee))
 	}
-	if len(txs) == 0 {
-		return
-	}
-	v.e.AddNewBlock(v.tb, txs...)
-	for _, tx := range txs {
-		if aer := v.e.GetTxExecResult(v.tb, tx.Hash()); aer.VMState != vmstate.Halt {
-			panic("setup transaction failed: " + aer.FaultException)
-		}
-	}
+	halt(txs...)
 }
 
 func runCase(o *hx.Out, k int, r *prng.R, corp []txPlan, natives bool) {
@@ -206,10 +217,16 @@ func runCase(o *hx.Out, k int, r *prng.R, corp []txPlan, natives bool) {
 		ntx := []int{1, 1, 1, 2, 2, 3}[r.Intn(6)]
 		var plans []txPlan
 		for i := 0; i < ntx; i++ {
-			if ntx > 1 && r.Chance(1, 3) {
+			switch {
+			case ntx > 1 && r.Chance(1, 3):
 				plans = append(plans, simpleTx(r))
 				o.Count("tx:simple-neighbour")
-			} else {
+			case ntx > 1 && i == 0 && r.Chance(1, 4):
+				p := genTree(r, o, natives)
+				p.oog = true
+				plans = append(plans, p)
+				o.Count("tx:out-of-gas-predecessor")
+			default:
 				plans = append(plans, genTree(r, o, natives))
 			}
 		}
@@ -218,12 +235,24 @@ func runCase(o *hx.Out, k int, r *prng.R, corp []txPlan, natives bool) {
 }
 
 func (v *env) runBlock(o *hx.Out, k int, plans []txPlan) {
-	before := v.snap()
-	pre := v.triples(before)
+	before := v.snap(false)
+	pre := before.tr
 	var txs []*transaction.Transaction
 	var fees []string
-	for _, p := range plans {
-		tx := v.newTx(v.w.compileEntry(p.tree), p.fee(), p.committee)
+	for i := range plans {
+		p := &plans[i]
+		script := v.w.compileEntry(p.tree)
+		fee := p.fee()
+		if p.oog {
+			// what the script needs on the state it will meet (it is the first of the block), cut
+			probe := v.newTx(script, fee, p.committee)
+			if vm, _ := v.e.TestInvoke(probe); vm != nil && vm.GasConsumed() > 1 {
+				fee = vm.GasConsumed() * int64(1+k%7) / 8
+			} else {
+				p.oog = false
+			}
+		}
+		tx := v.newTx(script, fee, p.committee)
 		txs = append(txs, tx)
 		fees = append(fees, fmt.Sprint(tx.SystemFee+tx.NetworkFee))
 	}
@@ -231,8 +260,14 @@ func (v *env) runBlock(o *hx.Out, k int, plans []txPlan) {
 	o.Count(fmt.Sprintf("block:txs=%d", len(txs)))
 
 	v.e.AddNewBlock(v.tb, txs...)
-	after := v.snap()
-	post := v.triples(after)
+	after := v.snap(true)
+	post := after.tr
+	for _, t := range pre { // the rewards are inputs of the block: the model keeps them in its store
+		if t.o == rewardTab {
+			post = append(post, t)
+		}
+	}
+	sortTriples(post)
 
 	// specification side (Go port, cross-checked against Lean by the `spec`/`specend` lines)
 	specSt, implSt := storeOf(pre), storeOf(pre)
@@ -240,12 +275,35 @@ func (v *env) runBlock(o *hx.Out, k int, plans []txPlan) {
 		specSt = burn(specSt, int(tx.SystemFee+tx.NetworkFee))
 		implSt = burn(implSt, int(tx.SystemFee+tx.NetworkFee))
 	}
+	anyDev := false
 	for i, p := range plans {
 		tx := txs[i]
 		aer := v.e.GetTxExecResult(v.tb, tx.Hash())
 		ev, odd := v.eventsOf(aer, tx.Sender())
 		st := aer.VMState.String()
-		if strings.Contains(aer.FaultException, "gas limit") || strings.Contains(aer.FaultException, "insufficient gas") {
+		gasOut := strings.Contains(strings.ToLower(aer.FaultException), "gas limit") || strings.Contains(aer.FaultException, "insufficient gas")
+		if os.Getenv("VERIF_EXEC_DEBUG") != "" {
+			fmt.Fprintf(os.Stderr, "case %d tx %d: %s %q\n", k, i, aer.VMState, aer.FaultException)
+		}
+		realHalt := aer.VMState == vmstate.Halt
+		if realHalt {
+			o.Count("result:HALT")
+		} else {
+			o.Count("result:FAULT")
+			o.Count("fault:" + faultClass(aer.FaultException))
+		}
+		if p.oog {
+			// out of gas at a point the model does not know: the model's answer is FAULT and no change
+			obs := st
+			if !gasOut {
+				obs += " not-out-of-gas"
+				o.Fail("harness-gas-cut", k, "%s: %s %q with fee %d", planText(p), st, aer.FaultException, tx.SystemFee)
+			}
+			o.Line("txg | "+planText(p), obs)
+			o.Line("spec", "FAULT ev 0")
+			continue
+		}
+		if gasOut {
 			st = "GASLIMIT"
 			o.Fail("harness-gas-limit", k, "%s: %s", planText(p), aer.FaultException)
 		}
@@ -254,16 +312,6 @@ func (v *env) runBlock(o *hx.Out, k int, plans []txPlan) {
 			o.Fail("odd-event", k, "%s: %v", planText(p), odd)
 		}
 		o.Line("tx | "+planText(p), fmt.Sprintf("%s ev %s", st, eventsText(ev)))
-		realHalt := aer.VMState == vmstate.Halt
-		if os.Getenv("VERIF_EXEC_DEBUG") != "" {
-			fmt.Fprintf(os.Stderr, "case %d tx %d: %s %q\n", k, i, aer.VMState, aer.FaultException)
-		}
-		if realHalt {
-			o.Count("result:HALT")
-		} else {
-			o.Count("result:FAULT")
-			o.Count("fault:" + faultClass(aer.FaultException))
-		}
 		var effEv []event
 		if realHalt {
 			effEv = ev
@@ -273,6 +321,11 @@ func (v *env) runBlock(o *hx.Out, k int, plans []txPlan) {
 		specSt = so.st
 		mo := implRun(implSt, p.tree)
 		implSt = mo.st
+		fired := devFired
+		anyDev = anyDev || fired
+		if fired {
+			o.Count("shape:commit-rule-applied-under-pending-exception")
+		}
 		hs := "FAULT"
 		if so.halt {
 			hs = "HALT"
@@ -280,7 +333,7 @@ func (v *env) runBlock(o *hx.Out, k int, plans []txPlan) {
 		o.Line("spec", fmt.Sprintf("%s ev %s", hs, eventsText(so.ev)))
 
 		if realHalt != so.halt || !sameEvents(effEv, so.ev) {
-			o.Fail(classify(p.tree, realHalt == mo.halt && sameEvents(ev, mo.raw), "tx"), k,
+			o.Fail(classify(fired, realHalt == mo.halt && sameEvents(ev, mo.raw), "tx"), k,
 				"tx %d of block: real %s ev %s, spec %s ev %s; tree %s", i, st, eventsText(effEv), hs, eventsText(so.ev), planText(p))
 		}
 		// direct form of the first sentence of the property, independent of the specification:
@@ -315,15 +368,16 @@ func (v *env) runBlock(o *hx.Out, k int, plans []txPlan) {
 		o.Fail("cache-storage-divergence", k, "%v; txs %s", after.odd, plansText(plans))
 		post = append(post, triple{999, 0, len(after.odd)})
 	}
+	// the native caches against a node restarted from the same store
+	if div := v.replicaCheck(); len(div) > 0 {
+		o.Fail("cache-restart-divergence", k, "%v; txs %s", div, plansText(plans))
+		post = append(post, triple{998, 0, len(div)})
+	}
 	o.Line("end", "st "+triplesText(post))
 	spost := triplesOf(specSt)
 	o.Line("specend", "st "+triplesText(spost))
 	if triplesText(post) != triplesText(spost) {
-		var all []*Node
-		for _, p := range plans {
-			all = append(all, p.tree...)
-		}
-		o.Fail(classify(all, triplesText(post) == triplesText(triplesOf(implSt)), "state"), k,
+		o.Fail(classify(anyDev, triplesText(post) == triplesText(triplesOf(implSt)), "state"), k,
 			"ledger state after block: real %s, spec %s; txs %s", triplesText(post), triplesText(spost), plansText(plans))
 	}
 	for name, n := range cov {
@@ -357,7 +411,8 @@ func bucket(n int) string {
 func faultClass(s string) string {
 	for _, c := range []string{"ABORT", "unhandled exception", "missing call flags", "not allowed in dynamic scripts",
 		"can not be retrieved in dynamic scripts", "context unload callback failed", "instruction offset is out of range",
-		"invalid offset for TRY", "invalid committee signature", "gas limit", "contract already exists"} {
+		"invalid offset for TRY", "invalid committee signature", "GAS limit", "contract already exists", "is blocked", "not found",
+		"first deposit", "already designated", "whitelist"} {
 		if strings.Contains(s, c) {
 			return strings.ReplaceAll(c, " ", "-")
 		}
@@ -365,13 +420,13 @@ func faultClass(s string) string {
 	return "other"
 }
 
-// classify names the shape of a deviation of the real code from the specification.
-// The implementation model is proved equal to the specification on `safe` trees
-// (Props/C04 impl_refines_spec_partial); its known deviation lives in the complement (a call
-// inside a finally block), so a deviation is "known" only if the real code agrees with the
-// implementation model AND the tree has that shape.
-func classify(t []*Node, realEqImpl bool, what string) string {
-	if realEqImpl && callInFinally(t) {
+// classify names the shape of a deviation of the real code from the specification. The
+// implementation model is proved equal to the specification unless its run applies the commit
+// rule of unloadContext to a callee that completed normally under a pending exception (Props/C04
+// impl_refines_spec_unless_finally_commit); so a deviation is "known" only if that rule fired in
+// the model's run AND the real code agrees with the model.
+func classify(fired, realEqImpl bool, what string) string {
+	if realEqImpl && fired {
 		return "finally-call-rollback"
 	}
 	return "atomicity-" + what
